@@ -42,6 +42,12 @@ func (f *frame) call(cc *ssa.CallCommon, res ssa.Value, pos token.Pos) (*Val, er
 	if err != nil {
 		return nil, err
 	}
+	if cv.Clo == nil && cv.T != nil && cv.T.Sort == SFn {
+		// a function value that travelled through memory as a term: recover what it denotes
+		if known, ok := f.symCells()["fn:"+cv.T.String()]; ok {
+			cv = known
+		}
+	}
 	if cv.Clo != nil && cv.Clo.Fn != nil {
 		return f.callFunc(cv.Clo.Fn, cv.Clo.Bindings, args, res, pos)
 	}
@@ -794,6 +800,12 @@ func (f *frame) callContract(fc *FuncContract, callee *ssa.Function, args []*Val
 			if p.Name == cbn && i < len(args) && args[i].Clo != nil && args[i].Clo.Fn != nil {
 				sur := f.e.fresh("closure!"+sanitizeIdent(args[i].Clo.Fn.Name()), SFn)
 				bridges = append(bridges, &cbBridge{param: cbn, idx: i, clo: args[i].Clo, sur: sur})
+				// the function literal is a new function value, different from every callback parameter
+				for k, kv := range f.symCells() {
+					if strings.HasPrefix(k, "fn:") && kv.T != nil {
+						f.assume(Not(Eq(sur, kv.T)))
+					}
+				}
 				na := make([]*Val, len(args))
 				copy(na, args)
 				na[i] = &Val{T: sur, Clo: &Closure{Param: cbn, T: sur}, Typ: args[i].Typ}
@@ -1058,7 +1070,7 @@ func (f *frame) liftClosure(fc *FuncContract, b *cbBridge, pos token.Pos) error 
 			}
 		}
 		if pi < 0 || src == "" {
-			return unsupported("bridge: the string logged for the outer callback is not a parameter the callee logs")
+			return unsupported("bridge: the string logged for the outer callback (%s) is not a parameter the callee logs (params %v, callee logs %v)", e, gen, calleeLogParam)
 		}
 		srcKey := f.e.regKey(cbLogKey(src), f.e.cbLogSort())
 		cur := f.get(f.st, k, f.e.cbLogSort())
